@@ -42,8 +42,29 @@ def check(res):
     corpus = corpora.c08(res.seed, res.tier)
     cl = kf.make_classifier(res, "C08", known_findings("C08"))
     genprop.run(res, "C08", PROPFILE, corpus, classify=cl, pre_build=write_asserts, spec=False,
-                extra=lambda gr, r: fmt_and_vet(res, gr, r))
+                extra=lambda gr, r: (fmt_and_vet(res, gr, r), names_theorems(res, gr, r)))
 
 
-PROPFILE = None
+def names_theorems(res, gr, results):
+    """Instances of the C08 theorems on the REAL emitted files: C08_no_missing_declaration for every struct,
+    C08_no_duplicate_declaration_flat for every struct that meets its syntactic hypotheses."""
+    n_files = n_hyp = 0
+    for m in gr.meta:
+        r = results[m["index"]]
+        if not m["generated"]:
+            continue
+        n_files += 1
+        if r["hyp"] == 3:
+            n_hyp += 1
+            if r["safe"] & 32:
+                res.violation({"kind": "spec-violation", "struct": m["key"],
+                               "what": "flat struct without Min/Max field-name clash, yet the emitted var block declares a name twice "
+                                       "(conclusion of C08_no_duplicate_declaration_flat fails on the emitted file)",
+                               "file": open(m["file"]).read()[:4000] if os.path.exists(m["file"]) else None})
+    res.coverage["names_theorem_instances"] = {
+        "emitted_files_checked_for_undeclared_and_duplicate_names": n_files,
+        "structs_meeting_hypotheses_of_C08_no_duplicate_declaration_flat": n_hyp}
+
+
+PROPFILE = "theories/Properties/C08.v"
 replay = genprop.replay
